@@ -177,6 +177,46 @@ def run_shard(args):
                     out["violations"].append({"kind": "unparsable-after-session-end", "detail": {"F": sorted(F), "error": str(e), "templates": picked, "new": new[-2500:]}, "witness": wit, "finding": None})
         if len(out["samples"]) < 2:
             out["samples"].append({"templates": picked, "file_tail": src[-1500:]})
+    # ---- real sessions: the plugin's own session-end path (per-category virtual application, diff
+    # rendering, review prompts) over the same bad programs; detector = hook-wrapper around pytest_sessionfinish
+    from .. import session
+
+    REAL_FLAGS = [(["--inline-snapshot=create,fix,trim,update"], None), (["--inline-snapshot=create,trim"], None), (["--inline-snapshot=fix,update"], None), (["--inline-snapshot=report"], None), (["--inline-snapshot=review"], b"y\ny\ny\ny\n"), (["--inline-snapshot=review"], b"n\ny\nn\ny\n"), ([], None), (["--inline-snapshot=trim,update"], None)]
+    nreal = {"quick": 1 if args.shard < 8 else 0, "thorough": 10}[tier]
+    for c in range(nreal):
+        rng = random.Random(f"{args.seed}/{PROP}/session/{args.shard}/{c}")
+        picked = [names[(args.shard * 7 + c * 3 + j) % len(names)] for j in range(2)] + [rng.choice(names) for _ in range(rng.randint(3, 7))]
+        picked = [n for n in picked if n not in ("cmp_eq_raises",)]
+        tests = [bad_test(rng, k, n) for k, n in enumerate(picked)]
+        gsites = [c05.make_site(rng, 100 + i, 2) for i in range(rng.randint(2, 5))]
+        for gs in gsites:
+            if gs["place"] == "module":
+                gs["place"] = "loop"
+        body, _ = program.build(gsites, style="rec", tests=1, header="")
+        src = header + "U = []\n" + "\n".join(tests) + "\n" + body.replace("def test_0():", "def test_generated():")
+        fargs, stdin = REAL_FLAGS[(args.shard + c) % len(REAL_FLAGS)]
+        proj = session.Project({"test_a.py": src})
+        try:
+            r = session.run_session(proj, fargs, env={"FORCE_COLOR": "true", "PYTHONPATH": ":".join([common.SRC, str(common.VERIF), str(common.VERIF / "stubs")])} if stdin else {"PYTHONPATH": ":".join([common.SRC, str(common.VERIF), str(common.VERIF / "stubs")])}, stdin=stdin)
+        finally:
+            proj.close()
+        C["real_sessions"] = C.get("real_sessions", 0) + 1
+        out["evaluations"] += 1
+        out["signatures"].add(f"real-session/{'+'.join(sorted(set(picked)))[:80]}/{' '.join(fargs) or 'default'}")
+        wit = {"files": {"test_a.py": src}, "args": fargs, "stdin": stdin.decode() if stdin else None}
+        if r.timeout or not r.audit:
+            out["inconclusive"].append(f"real session produced no audit log: exit={r.exit} {r.stderr[-300:]}")
+            continue
+        exc = [a for a in r.audit if a["kind"] == "sessionfinish_exception"]
+        if exc:
+            out["violations"].append({"kind": "pytest_sessionfinish-raised", "detail": {"args": fargs, "templates": picked, "events": exc, "stderr_tail": r.stderr[-800:]}, "witness": wit, "finding": None})
+        if not any(a["kind"] in ("sessionfinish_ok", "sessionfinish_exception") for a in r.audit):
+            out["violations"].append({"kind": "session-end-not-reached", "detail": {"args": fargs, "templates": picked, "exit": r.exit, "stdout_tail": r.stdout[-500:]}, "witness": wit, "finding": None})
+        new = r.after.get("test_a.py", b"").decode()
+        try:
+            compile(new, "test_a.py", "exec")
+        except SyntaxError as e:
+            out["violations"].append({"kind": "unparsable-after-session-end(real session)", "detail": {"args": fargs, "templates": picked, "error": str(e)}, "witness": wit, "finding": None})
     out["signatures"] = sorted(out["signatures"])
     return out
 
